@@ -255,6 +255,14 @@ func runCheck(o *checkOpts) int {
 				assumptions[a] = true
 			}
 		}
+		ic, iobls := eng.immutableObligations(o.prop)
+		for _, ob := range iobls {
+			allObls = append(allObls, ob)
+			oblCtx[ob] = ic[ob]
+			for a := range ic[ob].assumptions {
+				assumptions[a] = true
+			}
+		}
 	}
 	if o.only != "" {
 		re := regexp.MustCompile(o.only)
@@ -328,7 +336,15 @@ func runCheck(o *checkOpts) int {
 				if st2 == "unsat" {
 					r = solveResult{status: "unsat", solver: solvers[0].name + " (quantifier-free relaxation)", ms: r.ms + ms2, out: out2}
 				} else if st2 == "sat" {
-					r = solveResult{status: "sat", solver: solvers[0].name + " (candidate model: quantified axioms dropped)", ms: r.ms + ms2, out: out2}
+					// only a candidate: the full query still gets its full time budget on all solvers below
+					cand := solveResult{status: "sat", solver: solvers[0].name + " (candidate model: quantified axioms dropped)", ms: r.ms + ms2, out: out2}
+					full := solve(q, tmp, fmt.Sprintf("q%d", i), o.timeout, thorough)
+					if full.status == "unsat" || full.status == "sat" || full.status == "disagree" {
+						r = full
+					} else {
+						r = cand
+						r.ms += full.ms
+					}
 				}
 			}
 			if !decided() {
